@@ -625,10 +625,10 @@ Proof.
   { intros x Hx. destruct (Hes' x Hx) as (e & -> & _). eauto. }
   apply hst_ret_bind.
   apply hst_need; [apply (ctl_of _ _ W Hna)|].
-  apply hst_flip. intros hasD. apply hst_flip. intros hasC.
+  apply hst_flip. intros hasD. apply hst_flip. intros hasC. apply hst_flip. intros chk.
   eapply hst_ro; [apply (header_of_safe _ _ W)|exact (bwf_wf_batch _ _ W1)|]. intros ? ->.
-  set (es1 := if hasD then es else es ++ [offset_entry c0 27]).
-  set (es2 := if hasC then es1 else es1 ++ [offset_entry c0 22]).
+  set (es1 := if hasD then es else es ++ [offset_entry c0 (if chk then 27 else 37)]).
+  set (es2 := if hasC then es1 else es1 ++ [offset_entry c0 (if chk then 22 else 32)]).
   assert (Hes2 : forall oe, In oe es2 -> exists e, oe = Some e /\ all_true (e_a05 e) = true).
   { assert (Hes1 : forall oe, In oe es1 -> exists e, oe = Some e /\ all_true (e_a05 e) = true).
     { subst es1. destruct hasD; [exact Hes'|]. intros oe Hin. apply in_app_or in Hin as [Hin|[<-|[]]]; [exact (Hes' oe Hin)|].
@@ -1744,4 +1744,40 @@ Theorem ops_result_total_wf f xs o :
 Proof.
   intros Wf Hx. eapply (hoare_no_panic (WF false)); [apply run_ops_result_inv|exact Wf].
   apply Forall_forall. intros x Hin ->. contradiction.
+Qed.
+
+(* ------------------------------------------------------------------ *)
+(* the classes of ill-formed shapes are exhaustive: a shape in no class is well-formed *)
+
+Lemma first_class_wf l : first_class l = ShWf -> forall c, In c l -> c = ShWf.
+Proof.
+  induction l as [|x t IH]; intros H c Hin; [destruct Hin|].
+  cbn in H. destruct x; try discriminate H; destruct Hin as [<-|Hin]; try reflexivity; apply IH; assumption.
+Qed.
+
+Lemma batch_class_wf b : batch_class b = ShWf -> wf_batch b = true.
+Proof.
+  unfold batch_class, wf_batch, wf_batch_s. destruct (b_header b) as [h|]; [|discriminate].
+  destruct (if sec_eqb (h_sec h) ADV then b_adv b else b_control b); cbn [negb]; [|discriminate].
+  destruct (forallb present (b_entries b) && forallb present (b_adventries b)) eqn:Hp; cbn [negb]; [|discriminate].
+  destruct (wf_entries (b_entries b)) eqn:He; cbn [negb]; [|discriminate].
+  intros _. apply andb_prop in Hp as [_ Ha]. rewrite Ha. reflexivity.
+Qed.
+
+Lemma iat_class_wf b : iat_class b = ShWf -> wf_iat b = true.
+Proof.
+  unfold iat_class. destruct (present (ib_header b)); cbn [negb]; [|discriminate].
+  destruct (ib_control b); cbn [negb]; [|discriminate].
+  destruct (forallb present (ib_entries b)); cbn [negb]; [|discriminate].
+  destruct (wf_iat b); cbn [negb]; [reflexivity|discriminate].
+Qed.
+
+Theorem file_class_wf f : file_class f = ShWf -> wf_file f = true.
+Proof.
+  intros H. unfold file_class in H. pose proof (first_class_wf _ H) as Hall.
+  unfold wf_file, wf_file_s. apply andb_true_intro. split; apply forallb_forall.
+  - intros ob Hin. destruct ob as [b|].
+    + apply batch_class_wf. apply Hall. apply in_or_app. left. apply in_map_iff. exists (Some b). auto.
+    + specialize (Hall ShNilBatcher). discriminate Hall. apply in_or_app. left. apply in_map_iff. exists None. auto.
+  - intros ib Hin. apply iat_class_wf. apply Hall. apply in_or_app. right. apply in_map. exact Hin.
 Qed.
